@@ -25,7 +25,7 @@ Clauses(ev) ==
           SampleHonoursMask   |-> ev.mask = <<>> \/ S!MaskAllows(ev.mask, ev.v)]
     [] ev.ev = "flatten" ->
          [FlattenReturnsFlatSizeNumbers |-> ev.len = S!FlatSize(Sp) /\ ev.flat_size = S!FlatSize(Sp),
-          FlattenDeterminesTheSample    |-> ev.vals = S!Flatten(ev.v)]
+          FlattenDeterminesTheSample    |-> S!Shaped(Sp, ev.v) /\ ev.vals = S!FlattenIn(Sp, ev.v)]
     [] ev.ev = "eq" ->
          \* `open': the property text does not fix the verdict for this pair (same Dict keys in another order); then only the
          \* coherence of the real answers is demanded: whatever compares equal must hash equally
